@@ -529,6 +529,22 @@ def _run_flist(case, rec):
         if len(texts) > 1 and done == ncyc:
             once.require("yaml_text_fixed_point", all(t == texts[0] for t in texts[1:]), "FeatureList:yaml-text-not-fixed-point")
         once.check("original_unchanged_by_dump", _dev_list(ref, _flist_eval(fl, x, w)), "FeatureList:dump-modifies-original")
+        # one path rewritten with another list: every load returns what the file holds at that moment
+        if done:
+            fl_b = td.FeatureList(maps[::-1])
+            w_b = np.ascontiguousarray(w[::-1])
+            ref_b = _flist_eval(fl_b, x, w_b)
+            p = os.path.join(d, "reused.yaml")
+            for step, (obj, rf, ww) in enumerate([(fl, ref, w), (fl_b, ref_b, w_b), (fl, ref, w)]):
+                try:
+                    obj.dump(p)
+                    got = td.FeatureList.load(p)
+                    once.check("path_reuse_value[FeatureList]", _dev_list(rf, _flist_eval(got, x, ww)), "FeatureList.load:stale-after-rewrite",
+                               detail={"step": step})
+                except Exception as e:
+                    once.require("path_reuse_loads[FeatureList]", False, "FeatureList.load:stale-or-failing-after-rewrite",
+                                 detail={"exc": repr(e)[:300], "step": step})
+                    break
         # negative: an evaluator file is not a feature list
         if done:
             import yaml
@@ -1015,6 +1031,57 @@ def _run_model(case, rec):
         rec.tag("baseline[%s]" % cfg["cls"], ["mul:%s" % k["mul"], "add:%s" % k["add"]])
         rec.tag("map_class", [type(m).__name__ for m in mk.feature_list.feat_list])
     _model_roundtrips(rec, once, model, cfg, rng, comp_key="%s|%s" % (case["id"], cname))
+    _model_path_reuse(rec, once, model, cfg, rng, comp_key="%s|%s" % (case["id"], cname))
+
+
+def _model_path_reuse(rec, once, model_a, cfg, rng, comp_key, npts=24):
+    """History on ONE path: write A, load; overwrite with a different model B, load; overwrite with A, load - every load
+    must give the model that is in the file at that moment (by file name and through make_cider_calc-style loading), in
+    both formats.  Added after a seeded change (per-path memoisation of the YAML parse) went unnoticed."""
+    from ciderpress.dft.model_utils import load_cider_model
+    cname = type(model_a).__name__
+    model_b = _build_model(cfg, rng)
+    data = []
+    for m in (model_a, model_b):
+        try:
+            rho, X0T = _model_inputs(m.settings, rng, 1, npts)
+            ref = _model_eval(m, rho, X0T, 0)
+        except Exception as e:
+            rec.note("path_reuse_skipped", repr(e)[:200])
+            return
+        data.append((m, rho, X0T, ref))
+    d = _tmpdir()
+    try:
+        for fmt in ("yaml", "joblib"):
+            p = os.path.join(d, "reused." + fmt)
+            seq = [0, 1, 0, 1]
+            distinct = False
+            okall = True
+            for step, which in enumerate(seq):
+                m, rho, X0T, ref = data[which]
+                try:
+                    _dump_model(m, p, fmt, cfg)
+                    cur = load_cider_model(p, None if step % 2 == 0 else fmt)
+                    out = _model_eval(cur, rho, X0T, 0)
+                    dev = _dev_list(ref[:3], out[:3])
+                except Exception as e:
+                    once.require("path_reuse_loads[%s]" % fmt, False, "load_cider_model:%s:stale-or-failing-after-rewrite" % fmt,
+                                 detail={"exc": repr(e)[:300], "step": step})
+                    okall = False
+                    break
+                once.check("path_reuse_value[%s]" % fmt, dev, "load_cider_model:%s:stale-after-rewrite" % fmt,
+                           detail={"step": step, "class": cname})
+                if step == 1:
+                    # non-triviality: the previous content of the path evaluates differently on these inputs
+                    try:
+                        prev = _model_eval(data[0][0], rho, X0T, 0)
+                        distinct = _dev_list(ref[:3], prev[:3]) > 1e-8
+                    except Exception:
+                        distinct = True
+            if okall and distinct:
+                rec.nontrivial("%s|path-reuse|%s" % (comp_key, fmt))
+    finally:
+        shutil.rmtree(d, ignore_errors=True)
 
 
 def _model_roundtrips(rec, once, model, cfg, rng, comp_key, npts=36):
